@@ -253,6 +253,29 @@ func (C10) Execute(t *testing.T, sc *core.Scenario) *core.Result {
 		res.Panic = err.Error()
 		return res
 	}
+	// The fixture is built by the real writers; the garbage collector that produces archives and
+	// collected table files copies chunks with goroutines of its own, and the order in which they
+	// deliver decides the layout of the file (about one build in twelve differs). A chunk file's name
+	// is the hash of its content, so a replay that names the file it corrupts rebuilds the fixture
+	// until that very file exists: same name, same bytes.
+	if b.Only != nil && b.Only.File != "" {
+		for try := 0; len(files[b.Only.File]) == 0 && try < 400; try++ {
+			simos.RemoveTree(w.Dir)
+			if w, err = buildWorld(ctx, b.W, filepath.Join(base, "w")); err != nil {
+				res.Panic = "building the fixture failed: " + err.Error()
+				return res
+			}
+			if files, dirs, err = readDirFiles(w.Dir); err != nil {
+				res.Panic = err.Error()
+				return res
+			}
+			res.Probe("fixture_rebuilt_for_pinned_file")
+		}
+		if len(files[b.Only.File]) == 0 {
+			res.Panic = "the fixture never produced the file the replay names: " + b.Only.File
+			return res
+		}
+	}
 	var targets []string
 	for p := range files {
 		// journal.idx is not one of the statement's files ("table files, archives, journal or
@@ -276,6 +299,9 @@ func (C10) Execute(t *testing.T, sc *core.Scenario) *core.Result {
 		}
 	}
 	target := targets[b.Target%len(targets)]
+	if b.Only != nil && b.Only.File != "" {
+		target = b.Only.File
+	}
 	orig := files[target]
 	kind := fileKind(target)
 	res.Probe("target:" + kind)
